@@ -266,7 +266,8 @@ def runner_input(sc, lay, binary):
             "files": [[lay.render(k), m, d.hex()] for k, (m, d) in sorted(sc["files"].items())],
             "running": sc["running"], "enabled": sc["enabled"], "cmds": sc["cmds"],
             "faults": sc.get("faults") or [[] for _ in sc["cmds"]],
-            "delays": sc.get("delays") or [[] for _ in sc["cmds"]]}
+            "delays": sc.get("delays") or [[] for _ in sc["cmds"]],
+            **({"kills": sc["kills"]} if sc.get("kills") else {})}
 
 
 def run_impl(ctx, inputs, workers=8):
@@ -427,6 +428,10 @@ def known_filter(f):
         return ("id=C17-K1 class=KnownClass_C17_agent_not_runnable: backup; install; restore does not reinstate the files "
                 "when the installed agent executable does not answer --version (restore panics after `systemctl stop`, "
                 "the service stays stopped)")
+    if f.get("why", "").endswith("[C17-K2]"):
+        return ("id=C17-K2 class=KnownClass_C17_backup_cut: `backup` killed while saving the executable or the unit file (its last "
+                "two copies) leaves a backup that `restore` accepts (the backed-up executable is the marker): restore then panics or "
+                "exits 1 after `systemctl stop` with a mix of versions, or installs an incomplete unit file")
     return None
 
 
@@ -470,6 +475,165 @@ def corpus_scenarios(quick=True):
     add("corpus:uninstall-purge", {**old, **pkg, **stale}, [["uninstall", "package"], ["purge"], ["restore"], ["install"]], extras=(9, 11, 5))
     return out
 
+
+
+# ----------------------------------------------------------------------------------------
+# crash points inside `backup` (process death): backup killed at each file-level syscall, then
+# install, then restore
+# ----------------------------------------------------------------------------------------
+def crash_bases(rng, quick):
+    """installed version + complete package, no backup yet; returns scenarios without cmds"""
+    out = []
+    for b in range(1 if quick else 4):
+        files = {}
+        for l in SYS + PKG:
+            if l in ("SysExe", "PkgExe"):
+                m, d, _ = gen_agent(rng, True)
+                files[l] = (m, d)
+            else:
+                files[l] = gen_file(rng)
+        extras = [i for i, (cls, _) in enumerate(EXTRA_POOL) if cls == "Outside" and rng.random() < 0.3] if b else []
+        for i in extras:
+            files["X%d" % i] = gen_file(rng)
+        out.append({"classes": {"system": "crash:installed", "backup": "crash:absent", "package": "crash:complete"},
+                    "files": files, "extras": extras, "running": True, "enabled": True})
+    return out
+
+
+def kill_points(trace):
+    """(index, syscall, n) for every traced syscall of `backup` that touches a system path or the
+    backup folder: the tool is killed on ENTERING that syscall (n = occurrence number of the syscall)"""
+    pts, count = [], {}
+    for i, (name, line) in enumerate(trace):
+        count[name] = count.get(name, 0) + 1
+        if P_BACKUP in line or any(('"%s"' % p) in line for p in P_SYS):
+            pts.append((i, name, count[name], line[:140]))
+        elif name in ("copy_file_range", "sendfile", "fchmod") and pts:
+            pts.append((i, name, count[name], line[:140]))
+    return pts
+
+
+def crash_state_class(init, s1):
+    """C17-K2: the cut backup holds the marker executable and the config and eBPF object are saved
+    completely (content), but the backup as a whole is not complete"""
+    f0, f1 = init["files"], s1["files"]
+    bak = [P_BACKUP + "/Package/azure-proxy-agent", P_BACKUP + "/Package/proxy-agent.json",
+           P_BACKUP + "/Package/ebpf_cgroup.o", P_BACKUP + "/azure-proxy-agent.service"]
+    same = lambda b, p: b in f1 and p in f0 and f1[b][1] == f0[p][1]
+    complete = all(b in f1 and f1[b] == f0[p] for b, p in zip(bak, P_SYS))
+    return bak[0] in f1 and same(bak[1], P_SYS[1]) and same(bak[2], P_SYS[2]) and not complete
+
+
+def crash_property(ir):
+    """after backup(killed); install; restore: either everything is the pre-install version and the
+    service runs, or restore refused without touching anything"""
+    init, s_b, s_i, s_r = ir["init"], ir["steps"][0], ir["steps"][1], ir["steps"][2]
+    pre_r, post_r = s_i["state"], s_r["state"]
+    refused = (not [p for p in tree_diff(pre_r, post_r) if not p.startswith(P_TOOL_LOG)] and not s_r["calls"]
+               and pre_r["running"] == post_r["running"] and pre_r["enabled"] == post_r["enabled"])
+    reinstated = four(post_r) == four(init) and post_r["running"] and any(c[0][:1] == ["start"] for c in s_r["calls"])
+    if refused or reinstated:
+        return None
+    diff = [p for p, x, y in zip(P_SYS, four(init), four(post_r)) if x != y]
+    same = [p for p, x, y in zip(P_SYS, four(pre_r), four(post_r)) if x == y]
+    why = ("backup killed part-way; install; restore: restore (exit %d) neither refused nor reinstated the version: %s differ from before the upgrade, "
+           "%s still the newer ones, service running=%s" % (s_r["rc"], diff, same, post_r["running"]))
+    if crash_state_class(init, s_b["state"]):
+        why += " [C17-K2]"
+    return why
+
+
+def crash_leg(ctx, lay, binary, accepts, with_model, rng):
+    bases = crash_bases(rng, ctx.quick)
+    for i, b in enumerate(bases):
+        b.update(id=100000 + i, cmds=[["backup"]], faults=[[]], delays=[[]])
+    tin = []
+    for b in bases:
+        x = runner_input(b, lay, binary)
+        x["trace"] = ["0"]
+        tin.append(x)
+    traced = run_impl(ctx, tin)
+    scenarios = []
+    for b in bases:
+        pts = kill_points(traced[b["id"]]["steps"][0].get("trace") or [])
+        for k, (ix, name, n, line) in enumerate(pts):
+            sc = dict(b, id=b["id"] * 100 + k, cmds=[["backup"], ["install"], ["restore"]], faults=[[], [], []], delays=[[], [], []],
+                      kill=[name, n], kill_at=line)
+            scenarios.append(sc)
+    inputs = []
+    for sc in scenarios:
+        x = runner_input(sc, lay, binary)
+        x["kills"] = {"0": sc["kill"]}
+        x["dump"] = True
+        inputs.append(x)
+    impl = run_impl(ctx, inputs)
+    ctx.log("crash points inside backup: %d bases, %d kill points executed" % (len(bases), len(scenarios)))
+    path2key = {lay.path[k]: k for k in FIXED}
+    for i in range(len(EXTRA_POOL)):
+        path2key[lay.render("X%d" % i)] = "X%d" % i
+    # model: the modelled crash states of backup, and install; restore continued from the OBSERVED crash state
+    conts, exprs = [], []
+    for sc in scenarios:
+        ir = impl[sc["id"]]
+        s1 = ir["steps"][0]["state"]
+        files = {}
+        for p, (mode, h) in s1["files"].items():
+            if p in path2key and p in s1.get("data", {}):
+                files[path2key[p]] = (mode, bytes.fromhex(s1["data"][p]))
+        cont = {"id": sc["id"], "classes": sc["classes"], "files": files,
+                "extras": sorted(int(k[1:]) for k in files if k.startswith("X")),
+                "running": s1["running"], "enabled": s1["enabled"], "cmds": sc["cmds"][1:], "faults": [[], []], "delays": [[], []]}
+        conts.append(cont)
+        if with_model:
+            exprs.append(model_expr(cont, lay, accepts))
+            keys = model_keys(sc)
+            exprs.append("crash_scenario %s" % clist(["(%s, (%d%%N, %s))" % (lay.coq_loc(k), sc["files"][k][0], cb(sc["files"][k][1])) for k in keys], "(loc * file)"))
+    mres = coq_eval_retry(ctx, exprs, shard=max(8, len(exprs) // 12 + 1), timeout=1500, name="crash") if exprs else []
+    disagreements, failures = [], []
+    stats = {"bases": len(bases), "kill_points": len(scenarios), "restore_refused": 0, "reinstated": 0, "known_class_K2": 0, "killed": 0}
+    for n, (sc, cont) in enumerate(zip(scenarios, conts)):
+        ir = impl[sc["id"]]
+        case = {"id": sc["id"], "classes": sc["classes"], "running": True, "enabled": True, "cmds": sc["cmds"],
+                "kills": {"0": sc["kill"]}, "killed_on_entering": sc["kill_at"],
+                "files": [[lay.render(k), "%o" % m, d.hex()] for k, (m, d) in sorted(sc["files"].items())],
+                "replay": "python3 tools/checks/c17.py <this replay file>   # re-runs the case (strace-injected SIGKILL) on the real binary"}
+        if ir["steps"][0]["rc"] in (-9, 137):
+            stats["killed"] += 1
+        why = crash_property(ir)
+        summ = [{"args": s["args"], "rc": s["rc"], "calls": [c[0] for c in s["calls"]]} for s in ir["steps"]]
+        if why:
+            failures.append({"case": case, "why": why, "impl": summ})
+            stats["known_class_K2"] += why.endswith("[C17-K2]")
+        else:
+            pr, po = ir["steps"][1]["state"], ir["steps"][2]["state"]
+            stats["reinstated" if ir["steps"][2]["calls"] else "restore_refused"] += 1
+        if with_model:
+            diffs = []
+            # (a) the observed crash state is one of the modelled ones (+ at most one copy in flight)
+            states = mres[2 * n + 1]
+            keys = model_keys(sc)
+            pool = [[sc["files"][k][0], sha(sc["files"][k][1])] for k in keys]
+            s1 = ir["steps"][0]["state"]["files"]
+            obs = [s1.get(lay.path[l]) for l in BAK]
+            ok = False
+            for j, st in enumerate(states):
+                exp = [(pool[o[1]] if o is not None else None) for o in st]
+                rest = [i for i in range(4) if obs[i] != exp[i]]
+                if not rest:
+                    ok = True
+                elif len(rest) == 1 and j < 4 and states[j + 1][rest[0]] is not None and exp[rest[0]] is None:
+                    full = pool[states[j + 1][rest[0]][1]]        # the copy in flight: created empty, or filled (any mode)
+                    if obs[rest[0]] is not None and obs[rest[0]][1] in (full[1], sha(b"")):
+                        ok = True
+            if not ok:
+                diffs.append("step 0 backup (killed on entering %s): the backup folder %s is not a modelled crash state of backup (completed copies in the order config, eBPF object, executable, unit + one in flight)" % (sc["kill_at"][:80], obs))
+            # (b) install; restore from the observed crash state
+            msteps = model_steps(cont, lay, mres[2 * n])
+            sub = {"init": ir["steps"][0]["state"], "steps": ir["steps"][1:]}
+            diffs += ["(after the killed backup) " + d for d in compare(cont, lay, msteps, sub)]
+            if diffs:
+                disagreements.append({"case": case, "model": diffs[:6], "impl": summ})
+    return disagreements, failures, stats
 
 
 # ----------------------------------------------------------------------------------------
@@ -625,6 +789,12 @@ def run(ctx):
             samples.append({"case": case, "impl": [{"args": s["args"], "rc": s["rc"], "calls": [c[0] for c in s["calls"]], "running": s["state"]["running"],
                                                     "system_files": four(s["state"])} for s in ir["steps"]],
                             "model": [{"rc": m["rc"], "running": m["running"], "events": m["events"]} for m in msteps]})
+    cd, cf, cstats = crash_leg(ctx, lay, binary, accepts, with_model, rng)
+    disagreements += cd
+    failures += cf
+    nsteps += 3 * cstats["kill_points"]
+    agree_steps += 3 * cstats["kill_points"] - len(cd)
+    stats["crash_points_inside_backup"] = cstats
     ctx.log("scenarios %d, commands %d, agreeing %d, disagreements %d, property failures %d" % (len(scenarios), nsteps, agree_steps, len(disagreements), len(failures)))
 
     ctx.coverage.update({
@@ -670,7 +840,7 @@ def main(argv):
         sc = {"id": 0, "files": files, "extras": sorted(int(k[1:]) for k in files if k.startswith("X")),
               "running": case["running"], "enabled": case["enabled"], "cmds": case["cmds"],
               "faults": case.get("faults") or [[] for _ in case["cmds"]],
-              "delays": case.get("delays") or [[] for _ in case["cmds"]]}
+              "delays": case.get("delays") or [[] for _ in case["cmds"]], "kills": case.get("kills")}
         ir = run_impl(ctx, [runner_input(sc, lay, binary)], workers=1)[0]
         for s in ir["steps"]:
             print(" ".join(s["args"]), "-> rc", s["rc"], "calls", [" ".join(c[0]) + " (exit %d)" % c[2] for c in s["calls"]],
@@ -678,6 +848,9 @@ def main(argv):
             for p in P_SYS:
                 print("    ", p, s["state"]["files"].get(p))
         why = property_failures(sc, ir, {sha(d): d for _, d in files.values()})
+        if case.get("kills") and len(ir["steps"]) >= 3:
+            cw = crash_property(ir)
+            why = why + [cw] if cw else why
         print("property failures:", why or "none")
         return 1 if why else 0
     finally:
